@@ -695,7 +695,10 @@ class _GenState:
             fams = [f for f in self.cfg["families"] if f != "preset"] or ["tweak"]
             fam = rng.choice(fams)
             base = self.cur if rng.random() < 0.7 else PRESET_GUESS[rng.choice(PRESET_NAMES)]
-            K = gen_table(rng, fam, base)
+            if len(self.tables) > 2 and rng.random() < 0.15:
+                K = dict(rng.choice(self.tables[:-1]))      # an earlier table again (A, B, ..., A)
+            else:
+                K = gen_table(rng, fam, base)
             self.handles.append((idx, "dict"))
             op = {"op": "set_table", "lit": lit(K)}
             u = rng.random()
